@@ -1,6 +1,8 @@
 """C03 -- fit results depend only on data and current settings."""
 import copy
 
+import sys
+
 import numpy as np
 
 from .. import common, gen_all, curves, m1
@@ -414,4 +416,4 @@ def replay(rec):
         return not R.bad
     print("history replays are re-generated from the seed: run "
           "VERIF_SEED=%s ./check C03" % rec.get("seed"))
-    return True
+    return common.replay_by_rerun(sys.modules[__name__], rec)
